@@ -817,8 +817,8 @@ def run_case(ctx, case, paths, moments):
 
 
 ALL_CLASSES = ["EOF", "ComplexEOF", "HilbertEOF", "ExtendedEOF", "SparsePCA", "POP", "OPA", "CPCCA", "MCA", "CCA", "RDA",
-               "ComplexCPCCA", "ComplexMCA", "HilbertMCA"]
-ROTATABLE = ["EOF", "ComplexEOF", "HilbertEOF", "CPCCA", "MCA", "ComplexMCA", "HilbertMCA"]
+               "ComplexCPCCA", "ComplexMCA", "HilbertMCA", "HilbertCPCCA"]
+ROTATABLE = ["EOF", "ComplexEOF", "HilbertEOF", "CPCCA", "MCA", "ComplexMCA", "HilbertMCA", "ComplexCPCCA", "HilbertCPCCA"]
 STRUCTS = ["da2", "da3aux", "miaux", "da3", "ds", "list", "mi", "nan", "name=dim", "list12"]
 MOMENTS = ["fresh", "after-queries", "after-compute", "after-rotator-fit"]
 
